@@ -177,8 +177,62 @@ def noise(rnd):
         p.e.encode({':path': '/n', ':method': 'X', ':zz': 'q', 'a': 'b'})
 
 
+def first_use(seed):
+    """For every name of the static table (the library's own universe of well-known header names) and a few others: the
+    same short history run (a) as the very first use of the library in a process and (b) after other instances have been
+    used -- each in a child forked from this pristine process, so module- and class-level state is exactly as import left
+    it. One-shot iterators, lazily filled caches and first-call initialisation at module or class level show as a
+    difference for the name that happens to be looked up first."""
+    names = []
+    for n_, _ in HeaderTable.STATIC_TABLE:
+        n_ = bytes(n_).decode()
+        if n_ not in names:
+            names.append(n_)
+    names += ['x-custom', 'keep-alive', 'te', 'upgrade', 'x-forwarded-for']
+    def history(name):
+        p = Pair()
+        p.step(('list', [('2', name, 'v1')], False))
+        p.step(('list', [('2', name, 'v1')], True))
+        p.step(('list', [('2', name, 'v2'), ('3', name, 'v1', True)], False))
+        p.step(('dict', [(name, 'v3')], False))
+        p.step(('garbage', b'\x82\x86\x84', None))
+        return p.log.hexdigest(), p.n
+    def child(name, warm):
+        r, w = os.pipe()
+        pid = os.fork()
+        if pid == 0:
+            try:
+                os.close(r)
+                if warm:
+                    q = Pair()
+                    q.step(('list', [('2', 'x-other', '1'), ('2', ':path', '/'), ('2', 'zzz', '1')], False))
+                    q.step(('dict', [('x-d', '1')], True))
+                    q.step(('garbage', b'\x82\x40\x01k\x01v\xbe', None))
+                d, k = history(name)
+                os.write(w, ('%s %d' % (d, k)).encode())
+            finally:
+                os._exit(0)
+        os.close(w)
+        data = b''
+        while True:
+            c = os.read(r, 4096)
+            if not c:
+                break
+            data += c
+        os.close(r)
+        os.waitpid(pid, 0)
+        return data.decode().split(' ') if data else ['died', '0']
+    alone, after, n_ops = [], [], 0
+    for name in names:
+        a = child(name, False); b = child(name, True)
+        alone.append(a[0]); after.append(b[0]); n_ops += int(a[1]) + int(b[1])
+    print(json.dumps({'names': names, 'alone': alone, 'after': after, 'n_ops': n_ops}))
+
+
 def main():
     seed, n, mode = int(sys.argv[1]), int(sys.argv[2]), sys.argv[3]
+    if mode == 'firstuse':
+        return first_use(seed)
     rnd = random.Random(seed)
     hist = [gen_pair_history(rnd) for _ in range(n)]
     if n >= 2:
